@@ -106,6 +106,8 @@ def mutants(argv):
     missed = sum(1 for r in results if not r["caught"])
     for i in range(slots):
         shutil.rmtree(f"/tmp/verif-selftest-replays-{i}", ignore_errors=True)
+        # the scratch build output goes with the scratch worktrees
+        shutil.rmtree(f"/tmp/verif-target-_tmp_verif_wt_slot{i}", ignore_errors=True)
     print(f"mutants: {len(results)} (patch, property) pairs, {missed} missed")
     return 1 if missed else 0
 
